@@ -114,7 +114,7 @@ func c11Timeout(d time.Duration, f func()) (ok bool) {
 	}
 }
 
-const c11Deadline = 60 * time.Second
+const c11Deadline = 30 * time.Second
 
 // ---------- environment ----------
 
@@ -755,12 +755,20 @@ type c11Gen struct {
 	jobs    [][]c11Stmt // statements of job k
 	graphs  []string    // graph of job k
 	deleted []bool
+	// hangs seen (an operation that did not return within the deadline); generation stops after 3
+	timeouts int
 }
+
+func (g *c11Gen) stop() bool { return g.timeouts >= 3 }
 
 func (g *c11Gen) do(op map[string]interface{}) map[string]interface{} {
 	nop, obs := g.env.exec(op)
 	g.r.Emit(nop, obs)
 	g.r.Count("op:" + op["op"].(string))
+	if _, hung := obs["timeout"]; hung {
+		g.timeouts++
+		g.r.Count("timeout")
+	}
 	if s, _ := obs["skip"].(bool); s {
 		g.r.Count("skip:" + fmt.Sprint(obs["why"]))
 	}
@@ -940,7 +948,7 @@ func (g *c11Gen) caseSequence(nops int) {
 	gr := c01Graph(r, 1+r.Intn(2))
 	gb := c01Graph(r, 2)
 	g.reset(c11Named("A", gr), c11Named("B", gb))
-	for i := 0; i < nops; i++ {
+	for i := 0; i < nops && !g.stop(); i++ {
 		live := g.live()
 		c := r.Intn(14)
 		switch {
@@ -985,7 +993,7 @@ func (g *c11Gen) caseSequence(nops int) {
 func (g *c11Gen) caseSplits(q []c11Stmt, restart bool) {
 	r := g.r.Rng
 	g.reset(c11Named("A", c01Graph(r, 1)), c11Named("B", c01Graph(r, 2)))
-	for i := 1; i < len(q); i++ {
+	for i := 1; i < len(q) && !g.stop(); i++ {
 		if c11Hazard(q[:i]) {
 			continue
 		}
@@ -1031,6 +1039,9 @@ func (g *c11Gen) caseMarkTypes() {
 func (g *c11Gen) caseSizes(sizes []int) {
 	g.reset(c11Named("A", c11SizeGraph(120)))
 	for _, n := range sizes {
+		if g.stop() {
+			return
+		}
 		q := []c11Stmt{{"v": sl()}, {"limit": n}}
 		k := g.submit("A", q)
 		if k >= 0 {
@@ -1067,9 +1078,9 @@ func c11GenMain(r *Run) {
 	// 2. every split point of generated traversals, every result type
 	nsplit := 6
 	if thorough {
-		nsplit = 40
+		nsplit = 21
 	}
-	for i := 0; i < nsplit; i++ {
+	for i := 0; i < nsplit && !g.stop(); i++ {
 		q := c11Program(r.Rng, 4+r.Rng.Intn(5), c11Finals[i%len(c11Finals)])
 		if c11Hazard(q) {
 			continue
@@ -1080,14 +1091,14 @@ func c11GenMain(r *Run) {
 	// 3. sequences of submit / search / delete / restart
 	nseq, nops := 5, 14
 	if thorough {
-		nseq, nops = 40, 24
+		nseq, nops = 20, 20
 	}
-	for i := 0; i < nseq; i++ {
+	for i := 0; i < nseq && !g.stop(); i++ {
 		g.caseSequence(nops)
 	}
 
 	// 4. past the 5000-slot pipeline buffers (thorough)
-	if thorough {
+	if thorough && !g.stop() {
 		g.reset(c11Named("A", c11DenseGraph(18)))
 		k := g.submit("A", []c11Stmt{{"v": sl()}, {"out": sl()}, {"out": sl()}})
 		if k >= 0 {
